@@ -6,7 +6,9 @@ package main
 // calls (every call / return takes the debugger's write lock and writes the per-thread tables).
 // One thread is suspended at top level (in a loop, so every continue re-suspends it at the same
 // break point), one is suspended three calls deep, 2..6 runner threads loop over function calls
-// (bounded).  While the runners run, 1..2 command goroutines send bursts of describe / status /
+// (bounded).  The thread suspended in the calls computes a non-finite number (x / 0) and returns
+// it up to its top level: from the second iteration on its scope and the scope snapshots of its
+// call stack hold a value the JSON encoder rejects when it is not sanitised.  While the runners run, 1..2 command goroutines send bursts of describe / status /
 // cont .. stepout|resume / extract / inject / break / rmbreak / lockstate.  Every command must
 // answer within the bound, every result must be JSON-encodable, the runners must finish, and
 // the debugger must still answer afterwards.
@@ -56,7 +58,7 @@ for i in range(1, 10000000) {
 }
 `
 	c16streamDeep = `func d3(x) {
-  y := x + 1
+  y := x / 0
   return y
 }
 func d2(x) {
@@ -551,7 +553,14 @@ func runC16StreamChild(c *Ctx) error {
 	if err != nil {
 		return err
 	}
-	deep, err := mk("deep", c16streamDeep)
+	deepSrc := c16streamDeep
+	if os.Getenv("C16_STREAM_RACE") != "" {
+		// under the race detector the finite variant: the detector reports every distinct pair of
+		// stacks, and the sanitiser's path for a rejected value only multiplies the (not judged)
+		// reports about results encoded while their thread runs on
+		deepSrc = strings.Replace(deepSrc, "y := x / 0", "y := x + 1", 1)
+	}
+	deep, err := mk("deep", deepSrc)
 	if err != nil {
 		return err
 	}
